@@ -351,6 +351,33 @@ func (o *caseOracle) afterClose(c int, post snapshot, in *instance) {
 	o.common(post)
 }
 
+// afterSetupChannels: a TCP SETUP that asks for the pair a-(a+1) is refused if the pair shares a
+// channel with a pair the session already uses, and an accepted one is answered with exactly that pair.
+func (o *caseOracle) afterSetupChannels(r Req, res ReqResult, used []int) {
+	if r.Method != "setup" || res.NoConn || res.NoResp != "" || strings.Contains(r.Trs, ",") {
+		return
+	}
+	f := strings.Split(r.Trs, ".")
+	if len(f) != 6 || f[0] != "t" || f[4] != "1" {
+		return
+	}
+	a, _ := strconv.Atoi(f[5])
+	if res.Status < 200 || res.Status >= 300 {
+		return
+	}
+	if res.Chan != strconv.Itoa(a) {
+		o.violate("an accepted SETUP is answered with the interleaved pair it asked for", "sess-channel-not-echoed",
+			fmt.Sprintf("SETUP asked for interleaved=%d-%d, the Transport header of the %d answer carries channel %s", a, a+1, res.Status, res.Chan))
+	}
+	for _, c := range used {
+		if c == a || c == a+1 || c+1 == a {
+			o.violate("a SETUP whose interleaved pair shares a channel with a pair in use is refused, the session unchanged",
+				"sess-channel-overlap-accepted", fmt.Sprintf("channels %d-%d are in use, SETUP asking for interleaved=%d-%d was answered %d", c, c+1, a, a+1, res.Status))
+			return
+		}
+	}
+}
+
 // afterMedia: a request that was answered with an error status leaves the session working: what
 // flowed before it still flows after it.
 func (o *caseOracle) afterMedia(k int, flow string) {
